@@ -398,7 +398,8 @@ class UpdateCommand(BaseUpdateMixin, GematoCommand):
                     logging.error('Incremental specified but no '
                                   'timestamp in Manifest')
                     return 1
-                update_kwargs['last_mtime'] = last_ts.ts.timestamp()
+                update_kwargs['last_mtime'] = last_ts.ts.replace(
+                    tzinfo=datetime.timezone.utc).timestamp()
 
             logging.info(f'Updating Manifests in {p}...')
 
